@@ -824,7 +824,13 @@ impl Monitor for RulesMonitor {
         let bytes = sess.shared.bytes();
         check_image(&bytes, rep).map(|_| ()).map_err(|(s, d)| (s, format!("after {:?}: {}", step, d)))
     }
-    fn quiescent(&mut self, sess: &mut Session, _rng: &mut Rng, _gen: &Gen, rep: &mut Report, done: &mut Vec<Step>) -> Result<(), Fail> {
+    fn quiescent(&mut self, sess: &mut Session, rng: &mut Rng, _gen: &Gen, rep: &mut Report, done: &mut Vec<Step>) -> Result<(), Fail> {
+        // "any history of successful operations" includes calls through a handle whose
+        // stream has been removed meanwhile, as far as they answer Ok: the image is judged
+        // after them like after any other call (the episode cleans up after itself)
+        if sess.open_slots().is_empty() && rng.chance(1, 30) {
+            crate::props::handles::handle_after_removal_episode(sess, rng, rep)?;
+        }
         // the independent parser's logical view must also equal the model
         let bytes = sess.shared.bytes();
         let img = check_image(&bytes, rep).map_err(|(s, d)| (s, format!("after step #{}: {}", done.len(), d)))?;
